@@ -566,6 +566,9 @@ func (m *DenseInt8Matrix) Import(filename string) error {
       continue
     }
     fields := strings.Fields(l)
+    if len(fields) == 0 {
+      continue
+    }
     if cols == 0 {
       cols = len(fields)
     }
